@@ -249,12 +249,15 @@ def run(tier, seed, log=common.say):
     # (T) exploration of the real scheduler
     cfgs, opts = plan(tier, seed)
     te = time.time()
+    opts["deadline"] = time.time() + (900 if tier == "quick" else 3 * 3600)      # exploration budget (a healthy tree needs a fraction)
     results = sd.run_configs(cfgs, opts, seed=seed, procs=10 if tier == "quick" else 8)
+    opts.pop("deadline", None)
     res["explore"] = {
         "configs": len(cfgs), "runs": sum(r["runs"] for r in results),
         "complete_configs": sum(1 for r in results if r["complete"]),
         "nondeterministic_replays": sum(r["nondet"] for r in results),
         "errors": [r["error"] for r in results if r.get("error")][:10],
+        "skipped_after_budget": sum(1 for r in results if r.get("skipped")),
         "error_count": sum(1 for r in results if r.get("error")),
         "wall": round(time.time() - te, 1), "max_runs_per_config": opts["max_runs"],
     }
@@ -358,6 +361,8 @@ def report(prop, res):
         mach.append("TLC failed on SchedulerHist: " + res["conformance"]["errors"][0][-400:])
     if res["explore"]["anomaly_count"]:
         mach.append(f'controller anomalies: {res["explore"]["anomalies"][:3]}')
+    if res["explore"].get("skipped_after_budget"):
+        mach.append(f'{res["explore"]["skipped_after_budget"]} configurations were not explored: the time budget of the exploration was used up')
     if res["explore"]["nondeterministic_replays"] > max(5, res["explore"]["runs"] // 100):
         mach.append(f'{res["explore"]["nondeterministic_replays"]} of {res["explore"]["runs"]} schedule replays did not follow their script '
                     "(the controller does not own the scheduling nondeterminism on this machine)")
